@@ -10,12 +10,12 @@ table = subprocess.run([sys.executable, os.path.join(V, "tools", "seeded_table.p
 sec = f'''
 ### 13.5 Seeded changes by independent sub-agents (`seeded/`)
 
-Five waves of fresh sub-agents (one agent per claimed property and wave, 45 agents) were given only the property text and
+Six waves of fresh sub-agents (one agent per claimed property and wave, 54 agents) were given only the property text and
 a scratch worktree of /repo and asked for two changes each that break the property, keep the suite green and need
-something specific to manifest. Waves b to e were additionally told which ideas earlier agents had produced (never what
+something specific to manifest. Waves b to f were additionally told which ideas earlier agents had produced (never what
 my checks look for) and pushed towards cooperating sites, state surviving between calls, rare branches, ordering
 dependence, error paths, boundary values, tolerance, unusual-but-legal use two calls below the named mechanisms, argument forms, objects used in two places and
-interactions of two public calls. Every change was taken in through `tools/intake_seeded.py`: the
+interactions of two public calls, refused calls after which the same objects are used on, values computed once and reused, copies, class-level state and sizes one beyond what examples use. Every change was taken in through `tools/intake_seeded.py`: the
 patch applies to /repo HEAD, `demo.py` exits 1 with it and 0 without it, and the **full pinned suite still has all 246
 stable tests passing** with the change (`tools/baseline.py <scratch worktree>`); only then is it stored as
 `seeded/<name>/{{patch.diff,demo.py,notes.md,meta.json}}`. {n} changes were confirmed; one more (C12_d1: `_remove_node`
@@ -31,7 +31,12 @@ column says how). The misses had one thing in common: the *workload vocabulary* 
 were built in one canonical way - sorted node / edge creation order, edges listed in register order, a fresh compiler per
 compile, one graph / one circuit / one `solve()` per run, seeds from 0..999, at most 6 vertices or 5 photons, product-state
 tensor operands, legal edits only, no noise-carrying wrappers - and each miss was answered by turning that canonical choice
-into a scheduled one (so the fix helps against the whole class, not the one change). Some misses were harness problems
+into a scheduled one (so the fix helps against the whole class, not the one change). Wave f (error paths) added one more kind of
+scheduled event to several workloads: a **refused call as a fault** - an invalid compiler setting (C01), an impossible
+`replace_op` between mutation moves (C04), an out-of-range qubit position (C07), a replacement on other registers (C12) -
+after which the same objects are used on and must be what they were; plus solver / initial-state / graph objects that the
+caller keeps and reuses or edits between calls (C01, C04, C16), circuits with two-digit register indices (C12) and the
+solver's own per-generation report compared with what was observed (C19). Some misses were harness problems
 rather than workload gaps: a `KeyError` in my own invariant code (C12, C01: a harness error instead of a violation; the
 invariant code is now total), a starting tableau silently skipped as "constructor not judged" (C07), an index invariant that
 asked the operation under test for its own key (C12_e2: now derived independently), and an outcome scheduler that answered
